@@ -394,6 +394,11 @@ fn run_child(ctx: &Ctx, wdir: &Path, argv: &[String], step: &Step, idx: usize) -
         .env("IPTSIM_PLAN", &plan_path)
         .env("TZ", &step.env.tz)
         .env("RUST_BACKTRACE", "0")
+        // a private home and temp directory per scenario, shared by its steps like a user's machine
+        // (inside the workload prefix, so that anything a changed tool keeps there - a cache, a lock
+        // file - is seen, faultable, and carried from one step to the next)
+        .env("HOME", wdir.join("home"))
+        .env("TMPDIR", wdir.join("tmp"))
         .stdin(Stdio::null())
         .stdout(out)
         .stderr(err)
@@ -650,7 +655,8 @@ pub fn run_pass(ctx: &Ctx, sc: &Scenario, inject: bool) -> PassResult {
     let mut res = PassResult::default();
     let wdir = ctx.dir.join("w");
     let _ = std::fs::remove_dir_all(&ctx.dir);
-    std::fs::create_dir_all(&wdir).unwrap();
+    std::fs::create_dir_all(wdir.join("home")).unwrap();
+    std::fs::create_dir_all(wdir.join("tmp")).unwrap();
     let mut learned = Learned { canon: HashMap::new() };
     let mut digest_bytes: Vec<u8> = Vec::new();
     let mut all_viol: Vec<Violation> = Vec::new();
